@@ -9,7 +9,7 @@ ASSUMPTIONS = ['a failed File::create or a stack too small for the tree depth ab
 IMPORTS = textprop.IMPORTS
 def run(ctx):
     quick = ctx['tier'] == 'quick'
-    n, deep = (120, 300) if quick else (600, 1200)
+    n, deep = (120 * ctx.get('boost', 1), 300) if quick else (600, 1200)
     d = os.path.join(vlib.WORK, 'c13files_%d' % os.getpid())
     rc, out = vlib.harness_run(['file', ctx['seed'], n, d, deep], timeout=900)
     shutil.rmtree(d, ignore_errors=True)
